@@ -113,6 +113,7 @@ def make_scenario(b, rng, ref=False, force=None):
     src_arg = "%s.asm" % name
     out_p = "/w/t/%s.p" % name
     inc = ["-i", "/sim/inc"]
+    place, move_all, key_shape, key_lines = 0, False, 0, 0
     if not ref:
         f = force or {}
         # report options
@@ -144,20 +145,11 @@ def make_scenario(b, rng, ref=False, force=None):
             for o in sel:
                 opts += o
         # option placement
-        place = rng.below(4) if opts else 0
-        if place == 1:
-            env["ASCMD"] = " ".join(opts)
-            opts = []
-            dims.append("opts-via-ASCMD")
-        elif place == 2:
-            sc.setdefault("disk", {})["/w/t/opts.key"] = ("\n".join(" ".join(g) for g in groups) + "\n").encode()
-            env["ASCMD"] = "@/w/t/opts.key"
-            opts = []
-            dims.append("opts-via-ASCMD-keyfile")
-        elif place == 3:
-            sc.setdefault("disk", {})["/w/t/opts.key"] = (" ".join(opts) + "\n").encode()
-            opts = ["@/w/t/opts.key"]
-            dims.append("opts-via-@key")
+        # option placement (applied when argv is put together below, once the include paths are known)
+        move_all = rng.chance(0.5) and not any((" " in x) or not x for x in b["flags"])
+        place = rng.below(4) if (opts or move_all) else 0
+        key_shape = rng.below(4)
+        key_lines = rng.below(2)
         # language
         lang = rng.choice(["C", "C", None, "de_DE", "en_US"])
         if f.get("keep_lang"):
@@ -214,8 +206,41 @@ def make_scenario(b, rng, ref=False, force=None):
         if rng.chance(0.2):
             env["ASL_VERIF_CODEBUF"] = str(rng.choice([1, 2, 3, 7, 64, 511, 513, 4096]))
             dims.append("codebuf")
+    front = list(b["flags"]) + ([] if noquiet else ["-q"]) + inc
+    if not ref and place:
+        # the place an option is given: argv, ASCMD, a key file named in ASCMD, a key file named in argv.  Either only
+        # the report options move, or every option does (the program's own code-affecting ones, -q and the include paths)
+        placed = ([front] if move_all and front else []) + (groups if groups else ([opts] if opts else []))
+        if move_all:
+            front = []
+            dims.append("all-opts-moved")
+
+        def keytext(lines):
+            # legal key-file shapes: trailing newline or not, blank lines, leading blanks
+            txt = "\n".join(lines)
+            if key_shape == 0:
+                return txt + "\n"
+            if key_shape == 1:
+                return txt  # last line not newline-terminated
+            if key_shape == 2:
+                return "\n" + txt.replace("\n", "\n\n") + "\n"
+            return "  " + txt.replace("\n", "\n  ") + "\n"
+        flat = [x for g in placed for x in g]
+        lines = [" ".join(g) for g in placed] if key_lines else [" ".join(flat)]
+        opts = []
+        if place == 1:
+            env["ASCMD"] = " ".join(flat)
+            dims.append("opts-via-ASCMD")
+        elif place == 2:
+            sc.setdefault("disk", {})["/w/t/opts.key"] = keytext(lines).encode()
+            env["ASCMD"] = "@/w/t/opts.key"
+            dims.append("opts-via-ASCMD-keyfile")
+        else:
+            sc.setdefault("disk", {})["/w/t/opts.key"] = keytext(lines).encode()
+            opts = ["@/w/t/opts.key"]
+            dims.append("opts-via-@key")
     sc["env"] = env
-    sc["argv"] = list(b["flags"]) + ([] if noquiet else ["-q"]) + inc + opts + [src_arg, "-o", out_p, "-shareout", out_p[:-2] + ".h"]
+    sc["argv"] = front + opts + [src_arg, "-o", out_p, "-shareout", out_p[:-2] + ".h"]
     d = dict(b["disk"])
     d.update(sc.get("disk", {}))
     sc["disk"] = d
